@@ -16,7 +16,8 @@ Lemma inject_traceparent_tp_of : forall c,
   inject_traceparent c =
   tp_of [zero_digit; zero_digit] (to_lower_hex (c_tid c)) (to_lower_hex (c_sid c)) (flags_hex (c_flags c)) [].
 Proof.
-  intros c. unfold inject_traceparent, tp_of. cbn [app]. rewrite app_nil_r.
+  intros c. unfold inject_traceparent, tp_of.
+  rewrite trace_id_hex_is_lower_hex, span_id_hex_is_lower_hex. cbn [app]. rewrite app_nil_r.
   repeat (rewrite <- app_assoc; cbn [app]). reflexivity.
 Qed.
 
@@ -91,7 +92,8 @@ Qed.
 
 Lemma trim_injected : forall c, trim_ws (inject_traceparent c) = inject_traceparent c.
 Proof.
-  intros c. unfold inject_traceparent, flags_hex. cbn [app].
+  intros c. unfold inject_traceparent, flags_hex.
+  rewrite trace_id_hex_is_lower_hex, span_id_hex_is_lower_hex. cbn [app].
   set (y := n2b (nth (N.to_nat (b2n (c_flags c) mod 16)) kFlagsHexTable 0%N)).
   set (y0 := n2b (nth (N.to_nat (b2n (c_flags c) / 16)) kFlagsHexTable 0%N)).
   replace (zero_digit :: dash :: to_lower_hex (c_tid c) ++ dash :: to_lower_hex (c_sid c) ++ [dash; y0; y])
